@@ -53,7 +53,7 @@ contracts = {
              "record_job_end": "recorded_end = True"},
     lib={"self.backend.record_value(": lambda e, n, st, old: record_error_value(e, n, st, old),
          "ErrorValue(": lambda e, n, st, old: mk_error_value(e, n, st, old)},
-    opaque_raises=True),
+    opaque_raises=False, no_raise=True),
  "Scheduler.reject_job": dict(where=f"{S}:Scheduler.reject_job",
     params={"self": REF, "job": Opt(REF), "error": OBJ, "error_traceback": OBJ, "job_tags": OBJ}),
  "Scheduler._exec_job_main_thread": dict(where=f"{S}:Scheduler._exec_job_main_thread",
@@ -79,9 +79,14 @@ def record_error_value(eng, n, st, old):
     rec = eng.ctx.app("isinst_ErrorValue_recorded", [OBJ], BOOL, [h])
     st.pc.append(f"(= {rec.s} {iserr.s})")
     st.ver += 1
-    if eng.try_depth and eng.choice(2) == 1:
-        from pvc.core import RaiseEx
+    # serialising an arbitrary user exception may fail with TypeError (unpicklable payload) or AttributeError (local objects)
+    from pvc.core import RaiseEx
+    # (the fallback value ErrorValue(Exception(repr(error))) is a plain exception with a string payload: always serialisable)
+    c = eng.choice(3) if eng.try_depth else 0
+    if c == 1:
         raise RaiseEx("TypeError", None, n.lineno)
+    if c == 2:
+        raise RaiseEx("AttributeError", None, n.lineno)
     return h
 
 
